@@ -1,5 +1,198 @@
+/-
+C18 — MDCEV forecasts solve the consumer problem; model pieces agree.
+Property theorems only (helper lemmas in Proofs/MdcevCalc.lean, MdcevCalc2.lean, MdcevKkt.lean,
+MdcevAlgo.lean).  Real-valued statements are about the ℝ instance of the definitions the driver
+runs on Float (Model/Mdcev.lean).
+
+`ParamOK a` is the documented parameter domain (0 < α < 1, γ > 0, price > 0); `domain a` is
+[0, ∞) for an ordinary good and (0, ∞) for the outside good.
+-/
 import Model.Mdcev
+import Proofs.MdcevKkt
+import Proofs.MdcevAlgo
+
 open Mdcev
+
 namespace C18
-theorem stub_placeholder : (1 : Nat) = 1 := rfl
+
+/-! ### the derivative function is the derivative of the utility -/
+
+/-- all four variants, with or without outside good, prices and scale -/
+theorem deriv_all (v : Variant) (scale : Option ℝ) (a : Alt ℝ) (hok : ParamOK a) (x : ℝ)
+    (hx : x ∈ domain a) : HasDerivAt (fun t => U v scale a t) (dU v scale a x) x :=
+  hasDerivAt_U v scale a hok x hx
+
+theorem deriv_translated (scale : Option ℝ) (a : Alt ℝ) (hok : ParamOK a) (x : ℝ) (hx : x ∈ domain a) :
+    HasDerivAt (fun t => U .translated scale a t) (dU .translated scale a x) x :=
+  hasDerivAt_U .translated scale a hok x hx
+theorem deriv_gamma_profile (scale : Option ℝ) (a : Alt ℝ) (hok : ParamOK a) (x : ℝ) (hx : x ∈ domain a) :
+    HasDerivAt (fun t => U .gammaProfile scale a t) (dU .gammaProfile scale a x) x :=
+  hasDerivAt_U .gammaProfile scale a hok x hx
+theorem deriv_generalized (scale : Option ℝ) (a : Alt ℝ) (hok : ParamOK a) (x : ℝ) (hx : x ∈ domain a) :
+    HasDerivAt (fun t => U .generalized scale a t) (dU .generalized scale a x) x :=
+  hasDerivAt_U .generalized scale a hok x hx
+theorem deriv_non_monotonic (scale : Option ℝ) (a : Alt ℝ) (hok : ParamOK a) (x : ℝ) (hx : x ∈ domain a) :
+    HasDerivAt (fun t => U .nonMonotonic scale a t) (dU .nonMonotonic scale a x) x :=
+  hasDerivAt_U .nonMonotonic scale a hok x hx
+
+/-! ### the closed-form optimal consumption inverts the derivative -/
+
+/-- translated: for a positive multiplier below the overflow guard `MAX_EXP_ARGUMENT` -/
+theorem inverse_translated (scale : Option ℝ) (a : Alt ℝ) (hok : ParamOK a) (lam : ℝ) (hl : 0 < lam)
+    (hcap : trL scale a lam ≤ maxExpArgument) :
+    dU .translated scale a (inv .translated scale a lam) = lam := by
+  cases hg : a.gamma with
+  | none => exact inverse_tr_out scale a lam hg hl hok.alpha_pos (ne_of_lt hok.alpha_lt) hcap
+  | some g => exact inverse_tr_in scale a g lam hg hl hok.alpha_pos (ne_of_lt hok.alpha_lt) hcap
+
+theorem inverse_gamma_profile (scale : Option ℝ) (a : Alt ℝ) (hok : ParamOK a) (lam : ℝ) (hl : 0 < lam) :
+    dU .gammaProfile scale a (inv .gammaProfile scale a lam) = lam := by
+  cases hg : a.gamma with
+  | none => exact inverse_gp_out scale a lam hg hl
+  | some g => exact inverse_gp_in scale a g lam hg hl (hok.gamma_pos g hg)
+
+theorem inverse_generalized (scale : Option ℝ) (a : Alt ℝ) (hok : ParamOK a) (lam : ℝ) (hl : 0 < lam) :
+    dU .generalized scale a (inv .generalized scale a lam) = lam := by
+  cases hg : a.gamma with
+  | none => exact inverse_ge_out scale a lam hg hl hok.price_pos (ne_of_lt hok.alpha_lt)
+  | some g =>
+    exact inverse_ge_in scale a g lam hg hl (hok.gamma_pos g hg) hok.price_pos (ne_of_lt hok.alpha_lt)
+
+/-- non-monotonic: for a multiplier above `μ + ε` (the model-specific lower bound) -/
+theorem inverse_non_monotonic (scale : Option ℝ) (a : Alt ℝ) (hok : ParamOK a) (lam : ℝ)
+    (hl : a.mu + scaledEps scale a < lam) :
+    dU .nonMonotonic scale a (inv .nonMonotonic scale a lam) = lam := by
+  cases hg : a.gamma with
+  | none => exact inverse_nm_out scale a lam hg hl (ne_of_lt hok.alpha_lt)
+  | some g => exact inverse_nm_in scale a g lam hg (hok.gamma_pos g hg) hl (ne_of_lt hok.alpha_lt)
+
+/-! ### concavity and optimality -/
+
+/-- every variant's utility is concave on the admissible consumptions -/
+theorem utility_concave (v : Variant) (scale : Option ℝ) (a : Alt ℝ) (hok : ParamOK a) :
+    ConcaveOn ℝ (domain a) (fun t => U v scale a t) :=
+  U_concave v scale a hok
+
+/-- marginal utility is decreasing -/
+theorem marginal_utility_decreasing (v : Variant) (scale : Option ℝ) (a : Alt ℝ) (hok : ParamOK a)
+    (x y : ℝ) (hx : x ∈ domain a) (hxy : x ≤ y) : dU v scale a y ≤ dU v scale a x :=
+  dU_antitone v scale a hok x y hx hxy
+
+/-- **KKT ⇒ optimal**, for any finite family of concave differentiable utilities: budget
+exhausted, non-negative, equal marginal utility `lam` on the support, marginal utility at zero not
+above `lam` elsewhere ⇒ no feasible allocation has a larger total utility. -/
+theorem kkt_optimal {ι : Type*} (s : Finset ι) (D : ι → Set ℝ) (f : ι → ℝ → ℝ)
+    (f' : ι → ℝ) (x y : ι → ℝ) (lam B : ℝ)
+    (hconc : ∀ k ∈ s, ConcaveOn ℝ (D k) (f k))
+    (hxD : ∀ k ∈ s, x k ∈ D k) (hyD : ∀ k ∈ s, y k ∈ D k)
+    (hder : ∀ k ∈ s, HasDerivAt (f k) (f' k) (x k))
+    (hx0 : ∀ k ∈ s, 0 ≤ x k) (hy0 : ∀ k ∈ s, 0 ≤ y k)
+    (hsumx : ∑ k ∈ s, x k = B) (hsumy : ∑ k ∈ s, y k = B)
+    (hpos : ∀ k ∈ s, 0 < x k → f' k = lam) (hzero : ∀ k ∈ s, x k = 0 → f' k ≤ lam) :
+    ∑ k ∈ s, f k (y k) ≤ ∑ k ∈ s, f k (x k) :=
+  kkt_optimal_finset s D f f' x y lam B hconc hxD hyD hder hx0 hy0 hsumx hsumy hpos hzero
+
+/-- **KKT ⇒ optimal for the model**: `pts` lists (alternative, forecast consumption, competing
+consumption).  If the forecast satisfies the KKT conditions with multiplier `lam` for the model's
+own `dU`, any competing allocation with the same budget — in particular the brute-force one — has
+a `sum_of_utilities` that is not larger. -/
+theorem kkt_optimal_variant (v : Variant) (scale : Option ℝ) (lam B : ℝ)
+    (pts : List (Alt ℝ × ℝ × ℝ))
+    (h : ∀ p ∈ pts, KktPoint v scale lam p)
+    (hx : (pts.map (·.2.1)).sum = B) (hy : (pts.map (·.2.2)).sum = B) :
+    sumUtilities v scale (pts.map (·.1)) (pts.map (·.2.2)) ≤
+      sumUtilities v scale (pts.map (·.1)) (pts.map (·.2.1)) :=
+  kkt_optimal_pts v scale lam B pts h hx hy
+
+/-! ### the bisection -/
+
+/-- total consumption of a set of goods is decreasing in the multiplier (what the bisection
+relies on) -/
+theorem consumption_monotone (v : Variant) (scale : Option ℝ) (chosen : List (Alt ℝ))
+    (hok : ∀ a ∈ chosen, ParamOK a) (l₁ l₂ : ℝ)
+    (h1 : ∀ a ∈ chosen, lamOK scale a v l₁) (h12 : l₁ ≤ l₂) :
+    totalAt v scale chosen l₂ ≤ totalAt v scale chosen l₁ :=
+  totalAt_antitone v scale chosen hok l₁ l₂ h1 h12
+
+/-- **bisection invariant**: if a multiplier `lamStar` in the initial bracket exhausts the budget,
+it stays bracketed after any number of passes of the loop (whatever the tolerances, also when a
+pass stops early or meets a negative consumption). -/
+theorem bisection_invariant (v : Variant) (scale : Option ℝ) (chosen : List (Alt ℝ))
+    (hok : ∀ a ∈ chosen, ParamOK a) (anyNeg : ℝ → Bool) (B tolD tolB lamStar : ℝ) (n : Nat)
+    (s : BisState ℝ) (hdom : ∀ a ∈ chosen, lamOK scale a v s.lo)
+    (hroot : totalAt v scale chosen lamStar = B) (hlo : s.lo ≤ lamStar) (hhi : lamStar ≤ s.hi) :
+    (bisLoop (totalAt v scale chosen) anyNeg B tolD tolB n s).lo ≤ lamStar ∧
+    lamStar ≤ (bisLoop (totalAt v scale chosen) anyNeg B tolD tolB n s).hi := by
+  apply bisLoop_invariant (totalAt v scale chosen) anyNeg B tolD tolB lamStar n s _ hlo hhi
+  intro l hl1 _
+  have hdl : ∀ a ∈ chosen, lamOK scale a v l := by
+    intro a ha
+    have := hdom a ha
+    cases v <;> simp only [lamOK] at this ⊢ <;> linarith
+  have hds : ∀ a ∈ chosen, lamOK scale a v lamStar := by
+    intro a ha
+    have := hdom a ha
+    cases v <;> simp only [lamOK] at this ⊢ <;> linarith
+  constructor
+  · intro hle
+    rw [← hroot]
+    exact totalAt_antitone v scale chosen hok l lamStar hdl hle
+  · intro hle
+    rw [← hroot]
+    exact totalAt_antitone v scale chosen hok lamStar l hds hle
+
+/-- a pass that neither stops nor meets a negative consumption halves the bracket, unless the
+budget is met exactly -/
+theorem bisection_halves (g : ℝ → ℝ) (anyNeg : ℝ → Bool) (B tolD tolB : ℝ) (s : BisState ℝ)
+    (hgo : s.go = true) (hnn : s.negative = false) (hneg : anyNeg ((s.lo + s.hi) / 2) = false) :
+    (bisStep g anyNeg B tolD tolB s).hi - (bisStep g anyNeg B tolD tolB s).lo = (s.hi - s.lo) / 2 ∨
+      g ((s.lo + s.hi) / 2) = B :=
+  bisStep_halves g anyNeg B tolD tolB s hgo hnn hneg
+
+/-- **termination condition**: a pass switches `continue_iterations` off only when
+`hi − lo ≤ tolerance_dual` or `|Σx − B| ≤ tolerance_budget` (otherwise the loop runs its 5000
+passes) -/
+theorem bisection_termination (g : ℝ → ℝ) (anyNeg : ℝ → Bool) (B tolD tolB : ℝ) (s : BisState ℝ)
+    (hgo : s.go = true) (hnn : s.negative = false) :
+    (bisStep g anyNeg B tolD tolB s).go = false → (bisStep g anyNeg B tolD tolB s).negative = false →
+      (bisStep g anyNeg B tolD tolB s).hi - (bisStep g anyNeg B tolD tolB s).lo ≤ tolD ∨
+        |g ((s.lo + s.hi) / 2) - B| ≤ tolB :=
+  bisStep_stop g anyNeg B tolD tolB s hgo hnn
+
+/-! ### outside good, labels -/
+
+/-- the outside good is in the identified choice set, whatever the data (any number type) -/
+theorem outside_good_always_chosen {α} [NumOps α] (v : Variant) (scale : Option α) (budget : α)
+    (alts : List (Alt α)) (a : Alt α) (ha : a ∈ alts) (hout : isOutside a = true) :
+    a ∈ (identifyChosen v scale budget alts).chosen :=
+  outside_in_identified v scale budget alts a ha hout
+
+/-- **label irrelevance**: relabelling the alternatives by any injective map commutes with the
+whole forecast — chosen set, multiplier and consumptions (any number type, also on Float).  The
+order of the list (`index_to_key`) is kept; independence from that order is exercised by the
+relabelling stream of the harness. -/
+theorem labels_irrelevant {α} [NumOps α] (π : Int → Int) (hπ : Function.Injective π) (v : Variant)
+    (scale : Option α) (budget tolD tolB : α) (alts : List (Alt α)) :
+    forecast v scale budget tolD tolB (alts.map (relabelAlt π))
+      = (forecast v scale budget tolD tolB alts).map (relabelFc π) :=
+  forecast_relabel π hπ v scale budget tolD tolB alts
+
+/-! ### non-vacuity -/
+
+noncomputable def exAlt : Alt ℝ := ⟨7, 0, some 2, 1 / 2, 3 / 2, -1 / 4, 1 / 10⟩
+noncomputable def exOut : Alt ℝ := ⟨3, 0, none, 1 / 2, 1, 0, 0⟩
+
+example : ParamOK exAlt :=
+  ⟨by norm_num [exAlt], by norm_num [exAlt], by norm_num [exAlt],
+   by intro g hg; simp only [exAlt, Option.some.injEq] at hg; rw [← hg]; norm_num⟩
+example : ParamOK exOut :=
+  ⟨by norm_num [exOut], by norm_num [exOut], by norm_num [exOut], by intro g hg; simp [exOut] at hg⟩
+example : (0 : ℝ) ∈ domain exAlt := by simp [domain, exAlt]
+example : (1 : ℝ) ∈ domain exOut := by simp [domain, exOut]
+example : lamOK none exAlt .nonMonotonic 1 := by simp [lamOK, exAlt, scaledEps]; norm_num
+/-- a KKT point exists: one good, the whole budget on it -/
+example (v : Variant) : KktPoint v none (dU v none exOut 1) (exOut, 1, 1) :=
+  ⟨⟨by norm_num [exOut], by norm_num [exOut], by norm_num [exOut], by intro g hg; simp [exOut] at hg⟩,
+   by simp [domain, exOut], by simp [domain, exOut], fun _ => rfl, fun h => by norm_num at h⟩
+
 end C18
